@@ -122,11 +122,11 @@ impl Guard {
                 evlog::log(kind::ACT_BEGIN, c.tag.load(Ordering::Relaxed), delivered.unwrap_or(0) as u64);
             }
             if self.spin == SLOW_ACTION {
-                // a slow action: its first two runs keep the delivery inside the handler for a dozen milliseconds (a removal
+                // a slow action: its first two runs keep the delivery inside the handler for 30 and 12 milliseconds (a removal
                 // that overlaps has to wait that long, however long that is)
                 if runs < 2 {
                     let t0 = crate::now_ms();
-                    while crate::now_ms() - t0 < 12 {
+                    while crate::now_ms() - t0 < if runs == 0 { 30 } else { 12 } {
                         std::hint::spin_loop();
                     }
                 }
@@ -419,7 +419,7 @@ fn mutator(
             c.drop_tid.store(0, Ordering::SeqCst);
             c.drop_depth.store(0, Ordering::SeqCst);
             c.reg_ret_tick.store(0, Ordering::SeqCst);
-            let guard = Guard { idx, gen, spin: if cfg.owner_mode && cfg.phase != "istep" && rng.chance(1, 40) { SLOW_ACTION } else { (rng.below(4) * 40) as u32 } };
+            let guard = Guard { idx, gen, spin: if cfg.owner_mode && cfg.phase != "istep" && rng.chance(1, 24) { SLOW_ACTION } else { (rng.below(4) * 40) as u32 } };
             evlog::log(kind::CALL, 1 | ((s.sig as u64) << 8), tag);
             step_arm(cfg, &mut *step_rng.borrow_mut(), 1, s.sig);
             let res = if rng.chance(1, 2) {
